@@ -447,8 +447,8 @@ Proof.
     + (* the marked entry belongs to this declaration: it must be a named one *)
       destruct (fd_names fd) as [|x names] eqn:EN.
       * destruct (raw_type pkg fuel 0 [] (fd_ty fd) (parse_new_comment (fd_doc fd))) as [l|] eqn:Er; [|discriminate].
-        inversion Ea; subst a.
-        assert (He : In e (l1 ++ e :: a2)) by (apply in_or_app; right; left; reflexivity).
+        assert (El : l = a) by (inversion Ea; reflexivity).
+        assert (He : In e l) by (rewrite El, E1; apply in_or_app; right; left; reflexivity).
         destruct (raw_type_no_gs _ _ _ _ _ _ _ Er e He) as [Hg Hs].
         unfold relevant in R. rewrite Hg, Hs, andb_false_r in R. discriminate.
       * apply andb_true_iff in OF. destruct OF as [OF1 OF2].
@@ -480,8 +480,9 @@ Proof.
         (* a name of this declaration equals a name of a later declaration: the struct declares it twice *)
         apply in_map_iff in Hin. destruct Hin as [e' [En He']].
         destruct (raw_names_facts _ _ _ _ _ _ Ea He') as [_ [_ [_ [Hn' _]]]].
-        eapply NoDup_app_disjoint; [exact ND| |].
-        -- unfold tfields_of_decl. rewrite EN. rewrite map_map. unfold tf_name. cbn [fst]. rewrite map_id. rewrite <- En in *. exact Hn'.
+        rewrite En in Hn'.
+        apply (NoDup_app_disjoint _ _ _ (f_name e) ND).
+        -- unfold tfields_of_decl. rewrite EN. rewrite map_map. unfold tf_name. cbn [fst]. rewrite map_id. exact Hn'.
         -- clear - Hown. induction fds as [|f fds IHf]; [destruct Hown|].
            cbn [flat_map] in *. rewrite map_app. apply in_or_app. apply in_app_or in Hown. destruct Hown as [Ho|Ho]; [left|right; auto].
            rewrite tfields_of_decl_names. destruct (fd_names f); [destruct Ho|exact Ho].
